@@ -278,14 +278,16 @@ def corpus_image(name, destdir):
     src = os.path.join(VERIF, "corpus", name + ".img.xz")
     dst = os.path.join(destdir, name + ".img")
     if not os.path.exists(dst):
-        with open(dst + ".part", "wb") as out:
+        part = "%s.part%d" % (dst, os.getpid())      # several workers may unpack the same image
+        with open(part, "wb") as out:
             subprocess.run(["xz", "-dc", src], stdout=out, check=True)
-        os.rename(dst + ".part", dst)
+        os.rename(part, dst)
     j = os.path.join(VERIF, "corpus", name + ".jnl.xz")
     if os.path.exists(j) and not os.path.exists(dst + ".jnl"):
-        with open(dst + ".jnl.part", "wb") as out:
+        part = "%s.jnl.part%d" % (dst, os.getpid())
+        with open(part, "wb") as out:
             subprocess.run(["xz", "-dc", j], stdout=out, check=True)
-        os.rename(dst + ".jnl.part", dst + ".jnl")
+        os.rename(part, dst + ".jnl")
     return dst
 
 
